@@ -93,7 +93,7 @@ Print Assumptions T06_resolve.
 (** the individual error cases of the property text, as literal consequences *)
 Theorem T06_resolve_error_cases : forall c s (p u : name), nonwf c -> p <> [] ->
   updateNSMap c s (mkRAttr s_xmlns s_xmlns u) = Err E_NoUseOfxmlnsAsPrefix /\
-  (u <> uri_xml -> updateNSMap c s (mkRAttr s_xmlns s_xml u) = Err E_PrefixXMLNotMatchXMLURI) /\
+  (norm_raw u <> uri_xml -> updateNSMap c s (mkRAttr s_xmlns s_xml u) = Err E_PrefixXMLNotMatchXMLURI) /\
   (c_v11 c = false -> p <> s_xmlns -> p <> s_xml -> updateNSMap c s (mkRAttr s_xmlns p []) = Err E_NoEmptyStrNamespace) /\
   (p <> s_xmlns -> p <> s_xml -> updateNSMap c s (mkRAttr s_xmlns p uri_xmlns) = Err E_NoUseOfxmlnsURI) /\
   (p <> s_xmlns -> p <> s_xml -> updateNSMap c s (mkRAttr s_xmlns p uri_xml) = Err E_XMLURINotMatchXMLPrefix) /\
@@ -101,6 +101,18 @@ Theorem T06_resolve_error_cases : forall c s (p u : name), nonwf c -> p <> [] ->
   updateNSMap c s (mkRAttr [] s_xmlns uri_xml) = Err E_XMLURINotMatchXMLPrefix.
 Proof. exact updateNSMap_error_cases. Qed.
 Print Assumptions T06_resolve_error_cases.
+
+(** attribute-value normalisation: the raw value the scanner keeps (escape mark 0xFFFF before referenced characters,
+    literal TAB / LF) is normalised by [norm_raw] exactly as XML 1.0 section 3.3.3 prescribes for the value as written;
+    updateNSMap binds the prefix to that value ([ra_nval]), and T06_resolve* above are stated over it ([sp_of]): the
+    declaration, the element names and the attribute names all see the NORMALISED namespace name *)
+Theorem T06_norm : forall l, Forall (fun i => match i with AvLit c => c <> esc_mark | AvRef _ => True end) l ->
+  norm_raw (raw_of l) = spec_norm l.
+Proof. exact norm_raw_spec. Qed.
+Print Assumptions T06_norm.
+Example T06_nonvacuous_norm :   (* urn:a&amp;b&#x3A;<TAB>c  ->  "urn:a&b: c" *)
+  norm_raw (raw_of [AvLit 117; AvRef 38; AvLit 98; AvRef 58; AvLit 9; AvLit 99]) = [117; 38; 98; 58; 32; 99]%N.
+Proof. vm_compute. reflexivity. Qed.
 
 (** all these errors are fatal in the code (codes and the F_LowBounds..F_HighBounds range are read from
     XMLErrorCodes.hpp): the model's "the first error ends the scan" is the code's behaviour *)
